@@ -388,7 +388,7 @@ pub fn run(t: &mut Tally<'_>, quick: bool) {
         t.compare(&format!("DelayNs/{desc}"), "[]", mock, plain);
     }
     let unit_alpha = [Ans::N(0), Ans::Other, Ans::Flag(true), Ans::Flag(false)];
-    let len = if quick { 2 } else { 3 };
+    let len = if quick { 2 } else { 4 };
     let mut scripts = vec![];
     for l in 0..=len {
         scripts.extend(sequences(&unit_alpha, l));
